@@ -81,7 +81,15 @@ namespace cdsverif {
     class LinChecker
     {
         std::vector<Ev> const& h_;
-        std::unordered_set<uint64_t> seen_;
+        // memo: the linearised set is compared exactly, the model state through a strong 64-bit hash
+        struct Key {
+            uint64_t done, state;
+            bool operator==( Key const& o ) const { return done == o.done && state == o.state; }
+        };
+        struct KeyHash {
+            size_t operator()( Key const& k ) const { return size_t( hash_mix( k.done, k.state )); }
+        };
+        std::unordered_set<Key, KeyHash> seen_;
         uint64_t nodes_ = 0;
         uint64_t limit_;
         std::vector<int> order_;
@@ -93,8 +101,7 @@ namespace cdsverif {
                 return true;
             if ( ++nodes_ > limit_ )
                 return true;        // give up: counted as not decided, never as a violation
-            uint64_t key = hash_mix( hash_mix( 0x77, done ), m.hash());
-            if ( !seen_.insert( key ).second )
+            if ( !seen_.insert( Key{ done, m.hash() } ).second )
                 return false;
             // earliest response among pending operations
             uint64_t min_resp = ~0ull;
